@@ -254,6 +254,8 @@ class CSetOp(object):
                 a, b = self.ev(e.kids[0], env), self.ev(e.kids[1], env)
                 if op == "|" and isinstance(a, int) and isinstance(b, int):
                     return a | b
+                if op in ("+", "-") and ("rlen",) in (a, b):
+                    return ("rlen",)        # a position in the result (positions are not tracked)
                 pa = p_const(a) if isinstance(a, int) else a
                 pb = p_const(b) if isinstance(b, int) else b
                 if isinstance(pa, dict) and isinstance(pb, dict):
@@ -318,6 +320,8 @@ class CSetOp(object):
                     val = p_const(val)
                 b.default = val
                 return val
+            if isinstance(b, Result) and l0.n in ("len", "size") and val == ("rlen",):
+                return val                  # the fill count moves on (like r->len++)
         if l0.k in ("ArraySubscriptExpr", "UnaryOperator"):
             tgt = self.ev(l0, env)
             if isinstance(tgt, tuple) and tgt[0] == "slot":
